@@ -303,14 +303,13 @@ theorem scripted_reentry (k : Setter) (as : List Arg) :
 
 /-- no exception: same log, and both sides continue with the unscripted call (`setUTC_step`) on the same numbers,
     computed from the time value read at ENTRY — §15.9.5.27–.41 step 1 comes before the conversions, a valueOf that
-    re-enters setTime on the same Date does not change t — and stored over whatever the re-entrant calls wrote.
-    (Hypothesis `hst`: not the early return on an invalid date, Dev invalid_setter_not_stored.) -/
+    re-enters setTime on the same Date does not change t — and stored (a NaN result too) over whatever the
+    re-entrant calls wrote. -/
 theorem scripted_values (k : Setter) (d : DateObj) (tv : Spec.TV) (as : List Arg) (l : List Nat) (vs : List FV)
-    (h : Spec.convAll ((as.map toSpecArg).take (toSpec k).arity) 0 = (l, some vs))
-    (hst : d.isNaN = false ∨ k = .time ∨ k = .year) :
+    (h : Spec.convAll ((as.map toSpecArg).take (toSpec k).arity) 0 = (l, some vs)) :
     setUTCS k d as = ((setUTC k d vs).1, .ret (setUTC k d vs).2, l) ∧
     Spec.setUTCS (toSpec k) tv (as.map toSpecArg) = (Spec.setUTC (toSpec k) tv vs, .ret (Spec.setUTC (toSpec k) tv vs), l) :=
-  Lem.scripted_values k d tv as l vs h hst
+  Lem.scripted_values k d tv as l vs h
 
 /-- Date.UTC / constructor: the first seven arguments are all converted, in order -/
 theorem scripted_utc (as : List Arg) (l : List Nat) (r : Option (List FV))
@@ -399,10 +398,10 @@ example : dateParseFamily [50,48,48,48,45,48,49,45,48,49,84,50,52,58,48,48,58,48
     sides (t is read at entry) -/
 example : getTime (setUTCS .min (newDate zero) [.mut (.fin false 5 0) (.fin false 86400000 0)]).1 = some 300000 ∧
     (Spec.setUTCS .min (some 0) [.mut (.fin false 5 0) (.fin false 86400000 0)]).1 = some 300000 := by decide +kernel
-/-- Dev invalid_setter_not_stored: d = new Date(NaN); d.setUTCSeconds({valueOf(){ d.setTime(0); return 7 }}) returns NaN on
-    both sides, but otto leaves the 0 the valueOf stored (ES5 stores the NaN) -/
+/-- d = new Date(NaN); d.setUTCSeconds({valueOf(){ d.setTime(0); return 7 }}) returns NaN and leaves the date invalid,
+    on both sides -/
 example : (setUTCS .sec (newDate .nan) [.mut (.fin false 7 0) zero]).2.1 = .ret none ∧
-    getTime (setUTCS .sec (newDate .nan) [.mut (.fin false 7 0) zero]).1 = some 0 ∧
+    getTime (setUTCS .sec (newDate .nan) [.mut (.fin false 7 0) zero]).1 = none ∧
     (Spec.setUTCS .sec none [.mut (.fin false 7 0) zero]).1 = none := by decide +kernel
 
 end OttoVerif.C12.Thm
